@@ -1,4 +1,5 @@
 import Juniper.Generated.Deque
+import Juniper.Spec.Deque
 /-!
 # Model of `container/deque` (C04, C15)
 
@@ -18,14 +19,14 @@ structure Deque (α : Type) where
   front : Int
   back  : Int
   gen   : Int
-  deriving Repr
+  deriving Repr, DecidableEq
 
 /-- Outcome of an operation: the Go code either returns or panics. In both cases the state that the
 deque is left in is reported (statements before the panic have taken effect). -/
 inductive Res (σ β : Type) where
   | ok (s : σ) (v : β)
   | panic (s : σ)
-  deriving Repr
+  deriving Repr, DecidableEq
 
 variable {α : Type}
 
@@ -58,6 +59,10 @@ def window (d : Deque α) : List (Option α) :=
 
 def bump (b : Bool) (g : Int) : Int := if b then g + 1 else g
 
+/-- Does the part of a pop *after* the `if l == 1 { … return }` block contain the statement?
+`total` counts the statement in the whole function, `inLast` says whether the `l == 1` block has it. -/
+def afterLast (total : Nat) (inLast : Bool) : Bool := decide (total ≥ (if inLast then 2 else 1))
+
 /-- `Deque.resize(n)`; `make([]T, n)` panics for negative `n`. -/
 def resize (d : Deque α) (n : Int) : Res (Deque α) Unit :=
   if n < 0 then .panic d else
@@ -83,29 +88,35 @@ def maybeExpand (d : Deque α) : Res (Deque α) Unit :=
     resize d (expandArg d.isNil (cap d) d.front d.back (len d))
   else .ok d ()
 
+/-- `PushFront` after `maybeExpand`. -/
+def pushFrontAt (d : Deque α) (x : α) : Res (Deque α) Unit :=
+  let front := pushFrontFront d.isNil (cap d) d.front d.back
+  let d := { d with front := front }
+  match setSlot d.a d.front (some x) with
+  | none => .panic d
+  | some a =>
+    let d := { d with a := a }
+    let d := if pushFrontFixBack d.isNil (cap d) d.front d.back then { d with back := d.front } else d
+    .ok { d with gen := bump pushFrontBumpsGen d.gen } ()
+
 def pushFront (d : Deque α) (x : α) : Res (Deque α) Unit :=
   match maybeExpand d with
   | .panic s => .panic s
-  | .ok d () =>
-    let front := pushFrontFront d.isNil (cap d) d.front d.back
-    let d := { d with front := front }
-    match setSlot d.a d.front (some x) with
-    | none => .panic d
-    | some a =>
-      let d := { d with a := a }
-      let d := if pushFrontFixBack d.isNil (cap d) d.front d.back then { d with back := d.front } else d
-      .ok { d with gen := bump pushFrontBumpsGen d.gen } ()
+  | .ok d () => pushFrontAt d x
+
+/-- `PushBack` after `maybeExpand`. -/
+def pushBackAt (d : Deque α) (x : α) : Res (Deque α) Unit :=
+  let d := if pushBackWasEmpty d.isNil (cap d) d.front d.back
+    then { d with back := pushBackBackEmpty d.isNil (cap d) d.front d.back }
+    else { d with back := pushBackBack d.isNil (cap d) d.front d.back }
+  match setSlot d.a d.back (some x) with
+  | none => .panic d
+  | some a => .ok { d with a := a, gen := bump pushBackBumpsGen d.gen } ()
 
 def pushBack (d : Deque α) (x : α) : Res (Deque α) Unit :=
   match maybeExpand d with
   | .panic s => .panic s
-  | .ok d () =>
-    let d := if pushBackWasEmpty d.isNil (cap d) d.front d.back
-      then { d with back := pushBackBackEmpty d.isNil (cap d) d.front d.back }
-      else { d with back := pushBackBack d.isNil (cap d) d.front d.back }
-    match setSlot d.a d.back (some x) with
-    | none => .panic d
-    | some a => .ok { d with a := a, gen := bump pushBackBumpsGen d.gen } ()
+  | .ok d () => pushBackAt d x
 
 def popFront (d : Deque α) : Res (Deque α) (Option α) :=
   let l := len d
@@ -122,11 +133,11 @@ def popFront (d : Deque α) : Res (Deque α) (Option α) :=
                       back := popFrontLastBack d.isNil (cap d) d.front d.back,
                       gen := bump popFrontLastBumpsGen d.gen } item
     else
-      match (if popFrontClears ≥ 2 then setSlot d.a d.front none else some d.a) with
+      match (if afterLast popFrontClears popFrontClearsLast then setSlot d.a d.front none else some d.a) with
       | none => .panic d
       | some a =>
         .ok { d with a := a, front := popFrontFront d.isNil (cap d) d.front d.back,
-                     gen := bump (decide (popFrontGenBumps ≥ 1)) d.gen } item
+                     gen := bump (afterLast popFrontGenBumps popFrontLastBumpsGen) d.gen } item
 
 def popBack (d : Deque α) : Res (Deque α) (Option α) :=
   let l := len d
@@ -143,11 +154,11 @@ def popBack (d : Deque α) : Res (Deque α) (Option α) :=
                       back := popBackLastBack d.isNil (cap d) d.front d.back,
                       gen := bump popBackLastBumpsGen d.gen } item
     else
-      match (if popBackClears ≥ 2 then setSlot d.a d.back none else some d.a) with
+      match (if afterLast popBackClears popBackClearsLast then setSlot d.a d.back none else some d.a) with
       | none => .panic d
       | some a =>
         .ok { d with a := a, back := popBackBack d.isNil (cap d) d.front d.back,
-                     gen := bump (decide (popBackGenBumps ≥ 1)) d.gen } item
+                     gen := bump (afterLast popBackGenBumps popBackLastBumpsGen) d.gen } item
 
 def frontOf (d : Deque α) : Res (Deque α) (Option α) :=
   if frontPanics d.isNil (cap d) d.front d.back then .panic d else
@@ -180,7 +191,7 @@ structure Iter where
   i    : Int
   done : Bool
   gen  : Int
-  deriving Repr
+  deriving Repr, DecidableEq
 
 def iterate (d : Deque α) : Iter := { i := d.front, done := false, gen := d.gen }
 
@@ -197,9 +208,100 @@ def iterNext (d : Deque α) (it : Iter) : Res Iter (Option (Option α)) :=
       if cap d = 0 then .panic it1 else
       .ok { it1 with i := iterAdvance it.i (cap d) } (some v)
 
+open Juniper.Spec.Deque (Obs)
+
+def nextObs (d : Deque α) (it : Iter) : Iter × Obs α :=
+  match iterNext d it with
+  | .panic it' => (it', .panic)
+  | .ok it' none => (it', .done)
+  | .ok it' (some v) => (it', .item v)
+
+/-- `n` consecutive `Next` calls on a deque that is not touched in between. -/
+def nexts (d : Deque α) (it : Iter) : Nat → Iter × List (Obs α)
+  | 0 => (it, [])
+  | n + 1 => ((nexts d (nextObs d it).1 n).1, (nextObs d it).2 :: (nexts d (nextObs d it).1 n).2)
+
+/-- Drain a fresh iterator (`iterator.Collect(d.Iterate())`); `none` = it panicked (or did not end
+within `len(d.a)+1` calls, which cannot happen for a well-formed state). -/
+def collectFrom (d : Deque α) : Nat → Iter → Option (List (Option α))
+  | 0, _ => none
+  | n + 1, it =>
+    match nextObs d it with
+    | (_, .panic) => none
+    | (_, .done) => some []
+    | (it', .item v) => (collectFrom d n it').map (v :: ·)
+
+def collect (d : Deque α) : Option (List (Option α)) := collectFrom d (d.a.length + 1) (iterate d)
+
 /-! ## Abstraction -/
 
-/-- The abstract content: the live window, front to back. -/
+/-- The raw live window, front to back (`none` = a zero-valued slot). -/
 def toList (d : Deque α) : List (Option α) := window d
+
+/-- The abstract contents: the elements of the live window, front to back. -/
+def contents (d : Deque α) : List α := (window d).filterMap id
+
+/-! ## Presence facts consumed by the theorems (discharged by `decide` on the generated values) -/
+
+/-- Both pops overwrite the vacated slot with the zero value, in the `l == 1` branch and after it. -/
+def ClearFacts : Prop :=
+  popFrontClearsLast = true ∧ afterLast popFrontClears popFrontClearsLast = true ∧
+  popBackClearsLast = true ∧ afterLast popBackClears popBackClearsLast = true
+
+instance : Decidable ClearFacts := by unfold ClearFacts; exact inferInstance
+
+/-- Every mutator bumps the modification counter on every path that changes what an iterator
+would see: both pushes, both branches of both pops, `resize` and `Set`. -/
+def GenFacts : Prop :=
+  pushFrontBumpsGen = true ∧ pushBackBumpsGen = true ∧
+  popFrontLastBumpsGen = true ∧ afterLast popFrontGenBumps popFrontLastBumpsGen = true ∧
+  popBackLastBumpsGen = true ∧ afterLast popBackGenBumps popBackLastBumpsGen = true ∧
+  resizeBumpsGen = true ∧ setBumpsGen = true
+
+instance : Decidable GenFacts := by unfold GenFacts; exact inferInstance
+
+/-! ## Histories (C04) and iterator scenarios (C15) -/
+
+open Juniper.Spec.Deque (Op Out)
+
+def outUnit : Res (Deque α) Unit → Deque α × Out α
+  | .ok d () => (d, .unit)
+  | .panic d => (d, .panic)
+
+def outVal : Res (Deque α) (Option α) → Deque α × Out α
+  | .ok d v => (d, .val v)
+  | .panic d => (d, .panic)
+
+/-- One call of the exported API. -/
+def applyOp (d : Deque α) : Op α → Deque α × Out α
+  | .pushFront x => outUnit (pushFront d x)
+  | .pushBack x => outUnit (pushBack d x)
+  | .popFront => outVal (popFront d)
+  | .popBack => outVal (popBack d)
+  | .front => outVal (frontOf d)
+  | .back => outVal (backOf d)
+  | .item i => outVal (item d i)
+  | .set i x => outUnit (set d i x)
+  | .len => (d, .int (len d))
+  | .grow n => outUnit (grow d n)
+  | .shrink n => outUnit (shrink d n)
+  | .iterate => (d, match collect d with | some l => .list l | none => .panic)
+
+/-- A history: final state and everything returned. -/
+def run (d : Deque α) : List (Op α) → Deque α × List (Out α)
+  | [] => (d, [])
+  | o :: os => ((run (applyOp d o).1 os).1, (applyOp d o).2 :: (run (applyOp d o).1 os).2)
+
+/-- What happens while one iterator is live: the deque is used, or the iterator is advanced. -/
+inductive Ev (α : Type) where
+  | op (o : Op α)
+  | next
+  deriving Repr, DecidableEq
+
+/-- The observations made through one iterator during a sequence of events. -/
+def runEv (d : Deque α) (it : Iter) : List (Ev α) → List (Obs α)
+  | [] => []
+  | .op o :: es => runEv (applyOp d o).1 it es
+  | .next :: es => (nextObs d it).2 :: runEv d (nextObs d it).1 es
 
 end Juniper.Model.Deque
